@@ -1,11 +1,11 @@
 SPECIFICATION Spec
-CONSTANTS Pools = {0, 1}
+CONSTANTS Pools = {0}
  MaxN = 2
  TlsPools = {0}
  TlsThreads = {0, 1, 2}
  TlsVals = {0, 7}
  Binds = {TRUE, FALSE}
- NOf <- NOfB
+ NOf <- NOfS
 INVARIANTS CountInRange CursorInside SlotNeverDead HandlerIdle DeadPoolsBlank OutOfRangeNeverStored
 PROPERTIES TlsFrame ShutStaysShut SignalEmptiesTable
 CHECK_DEADLOCK FALSE
